@@ -941,6 +941,71 @@ func (r *vsRun) checkViewTags(midflight bool) {
 			}
 		}
 	}
+	// two tags in one search: the same pending tag can be reached along several paths and with both polarities
+	var usable []string
+	for _, n := range names {
+		if !skip[n] {
+			usable = append(usable, n)
+		}
+	}
+	for k := 0; k < 2 && len(usable) >= 2; k++ {
+		ia := rapid.IntRange(0, len(usable)-1).Draw(r.rt, "pairA")
+		ib := rapid.IntRange(0, len(usable)-2).Draw(r.rt, "pairB")
+		if ib >= ia {
+			ib++
+		}
+		a, b := usable[ia], usable[ib]
+		form := rapid.SampledFrom([]string{"or", "and", "andnot", "ornot"}).Draw(r.rt, "pairform")
+		negB := form == "andnot" || form == "ornot"
+		if negB && ((anyConv && dataDep[b]) || (midflight && depth[b] >= 3)) {
+			form, negB = "or", false
+		}
+		if midflight && depth[a]+depth[b] >= 5 {
+			continue
+		}
+		ta, sa, _ := strings.Cut(a, "/")
+		tb, sb, _ := strings.Cut(b, "/")
+		fa, fb := ta+":"+sa, tb+":"+sb
+		var qs string
+		var f func(x, y bool) bool
+		switch form {
+		case "or":
+			qs, f = fa+" or "+fb, func(x, y bool) bool { return x || y }
+		case "and":
+			qs, f = fa+" "+fb, func(x, y bool) bool { return x && y }
+		case "andnot":
+			qs, f = fa+" -"+fb, func(x, y bool) bool { return x && !y }
+		default:
+			qs, f = fa+" or -"+fb, func(x, y bool) bool { return x || !y }
+		}
+		q, err := query.Parse(qs + " sort:id")
+		if err != nil {
+			r.fatalf("query %q: %v", qs, err)
+		}
+		var got []uint64
+		_, _, _, err = v.SearchStreams(ctx, q, func(sc StreamContext) error {
+			got = append(got, sc.Stream().ID())
+			return nil
+		})
+		if err != nil {
+			if strings.Contains(err.Error(), "same converter name") {
+				r.c.Count("search_unsupported_mixed_converters", 1)
+				continue
+			}
+			r.fatalf("search %q through a fresh view failed: %v", qs, err)
+		}
+		var want []uint64
+		for id := range streams {
+			if f(truth[a][id], truth[b][id]) {
+				want = append(want, id)
+			}
+		}
+		sort.Slice(want, func(i, j int) bool { return want[i] < want[j] })
+		r.c.Count("two_tag_searches", 1)
+		if fmt.Sprint(got) != fmt.Sprint(want) {
+			r.fatalf("search %q through a fresh view returned %v, the definitions %q and %q evaluated on current data give %v", qs, got, defs[a], defs[b], want)
+		}
+	}
 	// tags shown per stream with all tags prefetched
 	shown := map[uint64][]string{}
 	err = v.AllStreams(ctx, func(sc StreamContext) error {
